@@ -159,6 +159,7 @@ func (c *Ctx) RunDocs(fams []string, fn DocFn) {
 			workload.W1RL(sink)
 			workload.W1Len(sink)
 			workload.W1Uni(sink)
+			workload.W7Runs(sink)
 			workload.W7LongPositionsInDocs(sink)
 		case "W2T":
 			workload.W2T(c.Thorough(), sink)
